@@ -371,3 +371,42 @@ func intsString(xs []int) string {
 	}
 	return sb.String()
 }
+
+// newRootRaw passes the caller's own *big.Int / *big.Rat (no defensive copy in the harness): C14.
+func newRootRaw(v, deg int, x *big.Int, q *big.Rat) Num {
+	switch {
+	case x != nil && v == 1 && deg == 2:
+		return Num{v: 1, n1: sq1.SqrtBigInt(x)}
+	case x != nil && v == 1:
+		return Num{v: 1, n1: sq1.CubeRootBigInt(x)}
+	case x != nil && v == 2 && deg == 2:
+		return Num{v: 2, n2: sq2.SqrtBigInt(x)}
+	case x != nil && v == 2:
+		return Num{v: 2, n2: sq2.CubeRootBigInt(x)}
+	case x != nil && deg == 2:
+		return Num{v: 3, n3: sq3.SqrtBigInt(x)}
+	case x != nil:
+		return Num{v: 3, n3: sq3.CubeRootBigInt(x)}
+	case v == 1 && deg == 2:
+		return Num{v: 1, n1: sq1.SqrtBigRat(q)}
+	case v == 1:
+		return Num{v: 1, n1: sq1.CubeRootBigRat(q)}
+	case v == 2 && deg == 2:
+		return Num{v: 2, n2: sq2.SqrtBigRat(q)}
+	case v == 2:
+		return Num{v: 2, n2: sq2.CubeRootBigRat(q)}
+	case deg == 2:
+		return Num{v: 3, n3: sq3.SqrtBigRat(q)}
+	}
+	return Num{v: 3, n3: sq3.CubeRootBigRat(q)}
+}
+
+func newRatRaw(v int, q *big.Rat) Num {
+	switch v {
+	case 1:
+		return Num{v: 1, n1: sq1.NewNumberFromBigRat(q)}
+	case 2:
+		return Num{v: 2, n2: sq2.NewNumberFromBigRat(q)}
+	}
+	return Num{v: 3, n3: sq3.NewNumberFromBigRat(q)}
+}
